@@ -1510,14 +1510,62 @@ def kbd_stream(pid, ctx):
     return s
 
 
+SPAN_UNITS = {"nsec": 1, "ns": 1, "usec": 10**3, "us": 10**3, "msec": 10**6, "ms": 10**6, "seconds": 10**9, "second": 10**9, "sec": 10**9, "s": 10**9, "minutes": 60 * 10**9, "minute": 60 * 10**9,
+              "min": 60 * 10**9, "m": 60 * 10**9, "hours": 3600 * 10**9, "hour": 3600 * 10**9, "hr": 3600 * 10**9, "h": 3600 * 10**9, "days": 86400 * 10**9, "day": 86400 * 10**9, "d": 86400 * 10**9,
+              "weeks": 604800 * 10**9, "week": 604800 * 10**9, "w": 604800 * 10**9}
+
+def timespan_stream(pid, ctx):
+    """the CLI's time-span options through the real argument parser and make_config: unitless = milliseconds (--debounce, --poll) or seconds
+    (--stop-timeout, --delay-run), a unit overrides that; --debounce IS the throttle of the action worker"""
+    r = random.Random(ctx["seed"] * 41 + 7)
+    s = core.StreamResult("cli-timespan")
+    d = core.WORK / pid / "cli-timespan"; d.mkdir(parents=True, exist_ok=True)
+    cases = []
+    opts = ["--debounce", "--poll", "--stop-timeout", "--delay-run"]
+    nums = [0, 1, 3, 7, 15, 50, 250, 500, 1000, 65535, 86400, 10**9]
+    for o in opts:
+        for n in nums: cases.append(f"ts{len(cases)} {o} {n}")
+        cases.append(f"ts{len(cases)} {o} +{r.choice(nums)}"); cases.append(f"ts{len(cases)} {o} 00{r.choice(nums)}")
+        for u in SPAN_UNITS:
+            for n in r.sample(nums[:-1], 3 if ctx["thorough"] else 2): cases.append(f"ts{len(cases)} {o} {n}{u}")
+    impl, culprits, fatal = core.run_chunks("wxspan", cases, 4, 120)
+    if fatal: s.error = fatal; return s
+    for c, why in culprits: s.oracle_failures.append((cases.index(c), c, "", f"the CLI's argument parser gave no answer on this value (it rejects a documented spelling?): {why}"))
+    cases = [c for c in cases if c in impl]
+    (d / "cases.txt").write_text("\n".join(cases) + "\n"); (d / "impl.txt").write_text("\n".join(impl[c] for c in cases) + "\n")
+    ok, err = core.run_driver(["span"], d / "cases.txt", d / "model.txt")
+    if not ok: s.error = "wxdriver span failed: " + err[-600:]; return s
+    model = core.read_lines(d / "model.txt")
+    s.evaluations = len(cases)
+    for i, (c, mo) in enumerate(zip(cases, model)):
+        o = impl[c]
+        if o != mo: s.disagreements.append((i, c, o, mo))
+        cid, opt, val = c.split(" ", 2)
+        m = re.match(r"\+?(\d+)([a-z]*)$", val)
+        want = int(m.group(1)) * (SPAN_UNITS[m.group(2)] if m.group(2) else (10**6 if opt in ("--debounce", "--poll") else 10**9))
+        f = o.split(" ")
+        what = None
+        if len(f) < 2 or not f[1].isdigit(): what = f"`{opt}={val}` was not accepted: {o[:120]}"
+        elif int(f[1]) != want: what = f"`{opt}={val}` became {int(f[1])} ns, documented is {want} ns ({'a value without a unit is ' + ('milliseconds' if opt in ('--debounce', '--poll') else 'seconds') if not m.group(2) else 'the unit given'})"
+        elif opt == "--debounce" and f[2:] != [f"throttle={want}"]: what = f"`--debounce={val}` ({want} ns) but the action worker's throttle is configured as {f[2:]}"
+        if what: s.oracle_failures.append((i, c, o, what))
+        s.bump(opt); s.bump("unitless" if not m.group(2) else "with unit")
+        s.nontrivial.add(hashlib.md5(c.split(" ", 1)[1].encode()).digest()[:8])
+        if i % max(1, len(cases) // 3) == 0 and len(s.samples) < 3: s.samples.append({"case": c, "impl": o, "model": mo})
+    s.note = ("clap + TimeSpan::from_str + make_config for real (hook H1) on every option taking a time span: unitless values (also with `+` and leading zeros) and every unit spelling of "
+              "humantime's table with whole-nanosecond units; the model is Ca.Ts.parseSpan (one-part forms), the oracle the documented meaning; values the parser rejects are not sent "
+              "(clap exits the process)")
+    return s
+
+
 def worker_plan(pid, theorems, rule_extra):
     fsreal = pid == "C01"
-    return dict(modules=["Wx.Glob.Throttle", "Wx.Glob.ThrottleRun"] + (["Wx.Fs.Source", "Wx.Kb.Thm"] if fsreal else []),
+    return dict(modules=["Wx.Glob.Throttle", "Wx.Glob.ThrottleRun"] + (["Wx.Fs.Source", "Wx.Kb.Thm"] if fsreal else ["Wx.Cli.TimeSpanThm"]),
                 theorems=theorems + (["Fsrc.rejected_never_ok", "Fsrc.outside_never_ok", "Fsrc.missing_is_flagged",
-                                      "Kb.eof_never_lost", "Kb.eof_exactly_once", "Kb.delivered_le_enables", "Kb.disabled_delivers_nothing", "Kb.inv_run", "Kb.spawned_eq_edges", "Kb.delivered_le_edges"] if fsreal else []),
-                bins=[("lib", ["wxthrottle"] + (["wxfsreal", "wxkbd"] if fsreal else []))],
-                streams=(lambda ctx: [worker_stream(pid, ctx), fs_real_stream(pid, ctx), kbd_stream(pid, ctx)]) if fsreal else (lambda ctx: [worker_stream(pid, ctx)]),
-                sources=["crates/lib/src/action/worker.rs", "crates/lib/src/watchexec.rs", "crates/lib/src/filter.rs", "crates/events/src/event.rs"] + (["crates/lib/src/sources/fs.rs", "crates/lib/src/sources/keyboard.rs", "crates/lib/src/config.rs"] if fsreal else []),
+                                      "Kb.eof_never_lost", "Kb.eof_exactly_once", "Kb.delivered_le_enables", "Kb.disabled_delivers_nothing", "Kb.inv_run", "Kb.spawned_eq_edges", "Kb.delivered_le_edges"] if fsreal else ["Ca.Ts.unitless_is_scaled", "Ca.Ts.unit_is_respected", "Ca.Ts.parseU64_with_unit"]),
+                bins=[("lib", ["wxthrottle"] + (["wxfsreal", "wxkbd"] if fsreal else []))] + ([] if fsreal else [("cli", ["wxspan"])]),
+                streams=(lambda ctx: [worker_stream(pid, ctx), fs_real_stream(pid, ctx), kbd_stream(pid, ctx)]) if fsreal else (lambda ctx: [worker_stream(pid, ctx), timespan_stream(pid, ctx)]),
+                sources=["crates/lib/src/action/worker.rs", "crates/lib/src/watchexec.rs", "crates/lib/src/filter.rs", "crates/events/src/event.rs"] + (["crates/lib/src/sources/fs.rs", "crates/lib/src/sources/keyboard.rs", "crates/lib/src/config.rs"] if fsreal else ["crates/cli/src/args.rs", "crates/cli/src/args/events.rs", "crates/cli/src/config.rs"]),
                 rule="a case is one arrival script (throttle, handler time, events with time / priority / emptiness / filter verdict); non-trivial = at least two batches; distinct by (script, observation). " + rule_extra,
                 assumptions=["async-priority-channel is a bounded priority heap (order within one priority unspecified) — external, modelled as the turn input",
                              "tokio::time::timeout and std::time::Instant: each clock reading is an input of a turn; only monotonicity is relied on",
